@@ -120,6 +120,20 @@ func main() {
 			if strings.HasPrefix(fs.Plan.Family, "iofault") {
 				countIOFault(r, fs)
 			}
+			if strings.HasPrefix(fs.Plan.ReorgAt, "store.read#") || strings.HasPrefix(fs.Plan.ReorgAt, "net.query#") {
+				r.Count("boundary_sessions", 1)
+				script := strings.Join(fs.Steps, "\n")
+				if strings.Contains(script, "reorg injected at "+fs.Plan.ReorgAt) {
+					r.Count("boundary_reorgs_injected", 1)
+					r.Count("boundary_reorg_injected_at:"+fs.Plan.ReorgAt, 1)
+					if strings.Contains(script, "ran to completion inside the window") {
+						r.Count("boundary_reorgs_completed_inside_the_window", 1)
+					}
+				}
+				if os.Getenv("C03_BOUNDARY_DEBUG") != "" {
+					fmt.Fprintf(os.Stderr, "== %s reorgAt=%s chain=%d bans=%v\n   %s\n", fs.Plan.Name, fs.Plan.ReorgAt, fs.Plan.ChainLen, fs.Bans, strings.Join(fs.Steps, "\n   "))
+				}
+			}
 			r.Count("queryAllPeers_calls", int64(fs.Net.QueriesAll))
 			r.Count("dispatcher_batches", int64(fs.Net.QueriesBatch))
 			r.Sample(map[string]any{"plan": fs.Plan, "script_tail": tail(fs.Steps, 8), "bans": fs.Bans,
